@@ -27,7 +27,10 @@ FAM = {
                 hist_share=dict(quick=4, thorough=2)),
     # cli_share: the part of the cases (seeded choice) that is also run through the helm command line (pkg/cmd)
     "C14": dict(mc="MC_Schema", sim=None, hv="c14", obs="SchemaObs", export="SchemaExport", inv="SchemaInv",
-                cli_share=dict(quick=3, thorough=1)),
+                cli_share=dict(quick=4, thorough=1),
+                # history route: every case whose values violate a schema (both kinds of first revision) + a seeded share of the
+                # rest (one kind, drawn)
+                hist_share=dict(quick=10, thorough=2)),
 }
 SPEC_FILES = ["Deps.tla", "Schema.tla"]
 
@@ -295,8 +298,13 @@ def run_family(pid, tier, seed, replay=None):
     if "hist_share" in fam:
         rnd = random.Random(seed)
         for cf in cases:
-            if fam["hist_share"][tier] <= 1 or rnd.randrange(fam["hist_share"][tier]) == 0:
+            share = fam["hist_share"][tier]
+            if cf.get("exp", {}).get("invalid"):
                 cf["hist"] = True
+            elif share <= 1 or rnd.randrange(share) == 0:
+                cf["hist"] = True
+                if share > 1:
+                    cf["histfirst"] = rnd.choice(["skipinstall", "laxinstall"])
 
     # 3. the real code
     lines, hdt = run_harness(hv, fam["hv"], cases, d)
@@ -385,6 +393,8 @@ def run_family(pid, tier, seed, replay=None):
     else:
         ops = [p for l in lines for p in json.loads(l).get("ops", [])]
         cov["operations_run_on_real_code"] = len(ops)
+        cov["operations_on_history_route"] = sum(1 for p in ops if p["mode"].startswith("hist-"))
+        cov["history_route_rejections"] = sum(1 for p in ops if p["mode"].startswith("hist-") and p["schemaErr"])
         cov["operations_through_command_line"] = sum(1 for p in ops if p["mode"].startswith("cli-"))
         cov["cases_also_run_through_command_line"] = sum(1 for c in cases if c.get("cli"))
         cov["operations_by_mode"] = dict(collections.Counter(p["mode"] for p in ops))
@@ -395,6 +405,8 @@ def run_family(pid, tier, seed, replay=None):
             "simcluster implements REST semantics for ConfigMaps, Secrets (release records) and CustomResourceDefinitions; readiness is scripted",
             "a render is observed through the `lookup` call of the root probe template (request log); template mode and lint cannot be observed that way",
             "with skip-schema-validation only install / upgrade / template are required not to reject (helm lint still validates the root values file)",
+            "history route: first revision by install with skip-schema-validation or by the schema-less chart of the same version, then upgrades "
+            "with an empty values map (default / reuse / reset-then-reuse / reset); the values in force are observed from a dry-run twin with the gate off",
             "command-line runs (pkg/cmd through the verif-tagged NewRootCmdWithConfigForVerif) use an injected action.Configuration over the "
             "simulated cluster; they are serialised because pkg/cmd keeps its settings in package globals",
         ]
